@@ -168,6 +168,21 @@ theorem reset_restores_words (s s' : St) (b c v : Nat) (w : Words)
 example : (run Cfg.fixed (St.init (fun _ => sortMeths ["B", "A"]) (fun _ => 0) (fun _ => .val 5))
     [.mock 0 0 "A" .ap true, .mock 0 0 "B" .rt true, .reset 0]).map (fun s => (s.vars 0, (s.ctxs 0).canceled)) = some (.val 5, true) := by decide
 
+/-- **Cancel through one method's handle restores the whole variable**: `Method(m).Cancel()` on a method mocker that was
+    applied (has a guard) writes the saved words back, cancels the *shared* context (so the next `Interface(&v)` starts a
+    fresh mocker and context, for every method) and touches no other variable; on a mocker that was never applied it
+    changes no variable at all. -/
+theorem cancel_one_method_restores_variable (s s' : St) (i v : Nat) (w : Words)
+    (hb : (s.ctxs (s.mms i).ctx).backup = some (v, w)) (hs : cancelMM s i = some s') :
+    s'.vars = (if (s.mms i).hasGuard then upd s.vars v w else s.vars)
+    ∧ ((s.mms i).hasGuard = true → (s'.ctxs (s.mms i).ctx).canceled = true) := by
+  obtain ⟨_, _, h3, h4, _⟩ := cancelMM_single s s' i _ v w rfl hb hs
+  exact ⟨h3, h4⟩
+
+example : (run Cfg.fixed (St.init (fun _ => sortMeths ["B", "A"]) (fun _ => 0) (fun _ => .val 5))
+    [.mock 0 0 "A" .ap true, .mock 0 0 "B" .rt true, .cancelM 0 0 "A", .mock 0 0 "B" .rt true]).map
+      (fun s => (callSlot s 0 "A", callSlot s 0 "B", (s.ctxs 0).canceled)) = some (some .notImpl, some (.stub 2), true) := by decide
+
 /-- **the saved words are the value the variable held before the first mock**: `proxy.Interface` (the only writer of the
     backup) stores the variable's current words when the context has no backup yet and never overwrites an existing one
     (`BackUpTo` only the first time). -/
